@@ -21,6 +21,14 @@ CHECKS = {
             'the documented rules (success/shutdownOn/restart budget/shutdown propagation/aggregation). Found and fixed a lost-kill-after-restart hang.',
             'same as C01; same-stage observers of shut-down subjects may end finished or shut-down (statement leaves it open)',
             'DESIGN.md §2.1, §3 C02'),
+    'C11': ('exploration', 'exhaustive enumeration of every position of every single-fault mutation of 25 base workflows, judged by a reference validity model in both directions',
+            'E2',
+            '25 well-formed base workflows (all platforms they declare) x EVERY position of each single-fault mutation (drop component, rename producer, add cycle-closing edge, duplicate name, '
+            'misspell every schema key, add unknown key, wrong type for every typed value, remove every referenced variable). A model that does not import the product classifies each '
+            'mutant (valid / broken / open) before it is loaded. Accepted => expanded graph is a DAG with unique ids, resolvable references and configurations; broken => '
+            'ExperimentInvalidConfigurationError within 30 s, never another exception. Three defects fixed, one recorded as a known finding.',
+            'faults inside sections of platforms that are not loaded are judged (the workflow contains them); wrong types of `platforms` and `isRepeat` (recomputed values) are open',
+            'DESIGN.md §3 C11'),
     'C12': ('model_checking', 'exhaustive enumeration of exit-reason x restart-hook-answer histories through the real restart path under the controlled runtime, policy monitor',
             'E1',
             'History enumeration on the implementation: for 30 (quick) / 120 (thorough) option combinations (maxRestarts, restartHookFile, '
@@ -56,6 +64,14 @@ CHECKS = {
             'DataReference.resolve of every outside spelling) is compared with a reference unrolling. The string-sorted iteration numbers defect was found and fixed.',
             'backward-stage loop-carried bindings, # in non-looped names and in-loop :loopref are grey zones and not enumerated',
             'DESIGN.md §3 C05'),
+    'C06': ('exploration', 'exhaustive enumeration of nested DSL 2.0 namespaces and of every single-site fault, compared with an independent environment-passing flattener up to graph isomorphism',
+            'E2',
+            'Valid namespaces (chains of nested workflows with every per-link parameter mode, environments, every producer/consumer depth and reference spelling, repeated templates, '
+            'hand-written multi-instance cases, odd step names) must compile to a FlowIR that has unique ids, passes FlowIRConcrete.validate() and is isomorphic (networkx, labelled nodes '
+            'and edges) to the graph produced by a reference flattener that passes environments and never substitutes text. Every single-site mutation (22 operators at every site) must be '
+            'rejected with DSLInvalidError/ValidationError carrying non-empty locations; a foreign exception or non-termination (ITIMER_VIRTUAL, 1.5 s CPU) is a violation. Four defects found and fixed.',
+            'a path appended inside component arguments, references without a method and references that end on a workflow are grey zones (judged: proper rejection or a clean compilation)',
+            'DESIGN.md §3 C06'),
     'C07': ('model_checking', 'operation-sequence search over the real mutators with a differential reload oracle and a store fixed-point check',
             'E2',
             'For 28 (quick) / 68 (thorough) packages (platform, user variable files, replication, DoWhile) every history of length <=3 over {next loop iteration with store, patch an '
